@@ -1268,6 +1268,19 @@ def raise_discipline(ctx, world):
         m, fn = world.repo.find_def(modname, path)
         loc = loc_of(m, fn)
         q = f"{modname}.{path}"
+        if "." in path and path.split(".")[0] in ("defvjp", "defjvp"):
+            # the rule dictionary is a local of the registration function: find it by value (the dict built from
+            # translate_vjp / translate_jvp), not by name
+            try:
+                _r, _sy, _m, _fn, _sc = eval_function(world, modname, path)
+                outer_sc = _sc.parent
+                for nm_, v_ in (outer_sc.vars.items() if outer_sc is not None else []):
+                    if v_ is not None and v_.op == "comp" and v_.get("kind") == "DictComp":
+                        table = nm_
+            except AnalysisError:
+                raise
+            except Exception:
+                pass
         # 1. lookups by indexing
         lookups = []
         defaulting = []
